@@ -249,6 +249,34 @@ func cellStores(cell *ssa.Alloc) []*ssa.Store {
 	return out
 }
 
+// cellLoads lists every load of the cell, in the allocating function and in
+// closures that capture it (transitively).
+func cellLoads(cell *ssa.Alloc) []*ssa.UnOp {
+	var out []*ssa.UnOp
+	var visit func(fn *ssa.Function, addr ssa.Value)
+	visit = func(fn *ssa.Function, addr ssa.Value) {
+		for _, b := range fn.Blocks {
+			for _, in := range b.Instrs {
+				switch x := in.(type) {
+				case *ssa.UnOp:
+					if x.Op == token.MUL && x.X == addr {
+						out = append(out, x)
+					}
+				case *ssa.MakeClosure:
+					cf := x.Fn.(*ssa.Function)
+					for i, bd := range x.Bindings {
+						if bd == addr && i < len(cf.FreeVars) {
+							visit(cf, cf.FreeVars[i])
+						}
+					}
+				}
+			}
+		}
+	}
+	visit(cell.Parent(), cell)
+	return out
+}
+
 // cellEscapes reports whether the cell's address is used other than by loads,
 // stores to it, and closure capture (e.g. passed to a call).
 func cellEscapes(cell *ssa.Alloc) bool {
